@@ -51,6 +51,24 @@ pub fn project(c: &Coordinator, gids: &BTreeMap<String, String>, incs: &BTreeMap
     json!({"workers": workers, "groups": groups})
 }
 
+/// process-wide runtime with a loopback mock worker (201 + DeployResponse for POST /api/v1/pipelines, 200 {} for anything else)
+fn mock() -> &'static (tokio::runtime::Runtime, String) {
+    static M: std::sync::OnceLock<(tokio::runtime::Runtime, String)> = std::sync::OnceLock::new();
+    M.get_or_init(|| {
+        use warp::Filter;
+        let rt = tokio::runtime::Builder::new_multi_thread().worker_threads(2).enable_all().build().unwrap();
+        let addr = rt.block_on(async {
+            let deploy = warp::path!("api" / "v1" / "pipelines").and(warp::post()).and(warp::body::json::<J>())
+                .map(|b: J| warp::reply::with_status(warp::reply::json(&json!({"id": format!("pid-{}", b["name"].as_str().unwrap_or("p")), "name": b["name"], "status": "running"})), warp::http::StatusCode::CREATED));
+            let other = warp::path("api").and(warp::any()).map(|| warp::reply::json(&json!({})));
+            let (addr, fut) = warp::serve(deploy.or(other)).bind_ephemeral(([127, 0, 0, 1], 0));
+            tokio::spawn(fut);
+            addr
+        });
+        (rt, format!("http://{addr}"))
+    })
+}
+
 /// Execute one history; returns the trace block.
 fn run_history(hist: &[J]) -> Vec<J> { run_history_cap(hist, None) }
 
@@ -69,7 +87,8 @@ fn run_history_cap(hist: &[J], cap: Option<usize>) -> Vec<J> {
         let mut ok = true;
         let mut res = json!([]);
         let r = catch(|| match act {
-            "register" => { let mut n = WorkerNode::new(WorkerId(a["w"].as_str().unwrap().into()), "http://127.0.0.1:1".into(), "k".into()); if let Some(m) = cap { n.capacity.max_pipelines = m; } c.register_worker(n); }
+            "register" => { let addr = if a["addr"] == "mock" { mock().1.clone() } else { "http://127.0.0.1:1".to_string() };
+                let mut n = WorkerNode::new(WorkerId(a["w"].as_str().unwrap().into()), addr, "k".into()); if let Some(m) = cap { n.capacity.max_pipelines = m; } c.register_worker(n); }
             "deregister" => { ok = c.deregister_worker(&WorkerId(a["w"].as_str().unwrap().into())).is_ok(); }
             "age" => { let t = c.heartbeat_timeout; match c.workers.get_mut(&WorkerId(a["w"].as_str().unwrap().into())) { Some(w) if w.last_heartbeat.elapsed() <= t => w.last_heartbeat = Instant::now() - t - Duration::from_secs(2), _ => ok = false } }
             "draining" => { match c.workers.get_mut(&WorkerId(a["w"].as_str().unwrap().into())) { Some(w) if w.status == WorkerStatus::Ready => w.status = WorkerStatus::Draining, _ => ok = false } }
@@ -119,6 +138,17 @@ fn run_history_cap(hist: &[J], cap: Option<usize>) -> Vec<J> {
                 }
             }
             "commit_migrate" => { match plans.remove(&a["id"].as_u64().unwrap()) { Some(Plan::M(p)) => { c.commit_migrate_pipeline(&p, "pid-new", a["ok"].as_bool().unwrap(), None); } _ => ok = false } }
+            "migrate_mono" => {
+                // Coordinator::migrate_pipeline (failover / rebalance / drain use it): plan and commit back to back around the HTTP calls.
+                // Recorded as the two phases the model has: a plan record (state unchanged) and a commit record with the call's outcome.
+                let g = a["g"].as_str().unwrap();
+                let before = project(&c, &gids, &incs);
+                out.push(json!({"ev": "op", "a": "plan_migrate", "p": a["p"], "g": g, "tgt": a["tgt"], "id": next_plan_id, "ok": true, "res": [], "st": before}));
+                let gid = gids.get(g).cloned().unwrap_or_default();
+                let r = mock().0.block_on(c.migrate_pipeline(a["p"].as_str().unwrap(), &gid, &WorkerId(a["tgt"].as_str().unwrap().into()), MigrationReason::Failover));
+                rec = json!({"ev": "op", "a": "commit_migrate", "id": next_plan_id, "okflag": r.is_ok(), "res": []});
+                next_plan_id += 1;
+            }
             x => panic!("unknown action {x}"),
         });
         if let Err(p) = r {
